@@ -23,11 +23,11 @@ CONFIG = {'assumptions': [
     'the hashed part of a SysV table is indices 1..n-1 (index 0 is STN_UNDEF, the chain terminator), of a GNU table symoffset..n-1',
     'the ELF header and section headers of the synthesized image are written by the harness (they are C01 subject matter); '
     'linked-section type validation (elffile.py _get_linked_*) is exercised by opening the image but has no theorem here']}
-LEVEL = {'text': 'Machine-checked (37 theorems, no axioms), all for unbounded sizes and BOTH classes/byte orders: a symbol table of any '
+LEVEL = {'text': 'Machine-checked (41 theorems, no axioms), all for unbounded sizes and BOTH classes/byte orders: a symbol table of any '
                  'length and any sh_entsize >= the standard entry, placed anywhere in any image with its string table placed anywhere, '
                  'is enumerated to exactly the encoded entries in index order (every field; names through the string table), '
                  'get_symbol(i) and num_symbols are exact, get_symbol_by_name returns exactly the symbols bearing the name in order or '
-                 'None - and does so after ANY history of calls on the section object (num_symbols, get_symbol, enumerations abandoned after any number of steps, earlier lookups): the object\'s one mutable attribute _symbol_name_map is modelled, the invariant None-or-complete-map is proved preserved by every call (C03_history_free, C03_by_name_after_history); SHT_SYMTAB_SHNDX entry i and the Solaris syminfo enumeration are exact; the code\'s elf_hash and gnu_hash equal '
+                 'None - and does so after ANY history of calls on the section object (num_symbols, get_symbol, enumerations abandoned after any number of steps, earlier lookups): the object\'s one mutable attribute _symbol_name_map is modelled, the invariant None-or-complete-map is proved preserved by every call (C03_history_free, C03_by_name_after_history); the shared stream cursor is explicit in that state machine: every call and every single next() of any number of live iter_symbols generators starts at an ARBITRARY cursor (schedule adv), and the answers are proved independent of it (C03_cursor_free, C03_next_yields_in_order, C03_get_symbol_cursor_free; C03_gnu_count_sequential ties the one sequential read loop, GNU get_number_of_symbols, to the indexed walk); SHT_SYMTAB_SHNDX entry i and the Solaris syminfo enumeration are exact; the code\'s elf_hash and gnu_hash equal '
                  'the standard 32-bit recurrences on every input; for ALL tables satisfying the boolean predicates wf_sysv_hash / '
                  'wf_gnu_hash (no builder is trusted) SysV and GNU lookups are sound (a returned symbol bears the name and lies in the '
                  'hashed part), complete (a present name is found) and return None without error for every absent name (bucket, '
@@ -54,7 +54,11 @@ RULE = ('cases: (a) hash functions on byte strings (random ASCII/UTF-8/raw bytes
         'Coq spec encoders must reproduce the section bytes and wf_sysv_hash / wf_gnu_hash must accept the linker\'s tables, then all '
         'present names and 40 absent ones are looked up; (f) histories of 1..9 calls on ONE SymbolTableSection object (num_symbols, '
         'get_symbol, enumerations abandoned after 0 / 1 / some / all / more-than-all steps by dropping or closing the generator, '
-        'lookups by name before and after, names beyond and on both sides of the stop point) against the stateless spec. distinct = hash(kind, abstract); non-trivial = a table with >= 2 symbols, or a hash-function input of '
+        'lookups by name before and after, names beyond and on both sides of the stop point) against the stateless spec; (g) interleaved histories of 7..19 calls on the sections of ONE open ELFFile holding .dynstr .dynsym '
+        '.symtab_shndx .SUNW_syminfo .hash .gnu.hash: up to three live iter_symbols generators and two syminfo generators advanced one '
+        'step at a time and RESUMED after get_symbol, lookups by name, SysV/GNU hash lookups and counts, get_section_index, '
+        'get_string, other sections\' data(), get_section and explicit stream.seek; the model runs under the cursor schedule '
+        'stream.tell() actually observed before each call. distinct = hash(kind, abstract); non-trivial = a table with >= 2 symbols, or a hash-function input of '
         '>= 2 bytes')
 
 SHT = {'NULL': 0, 'SYMTAB': 2, 'STRTAB': 3, 'HASH': 5, 'DYNSYM': 11, 'SYMTAB_SHNDX': 18,
@@ -311,7 +315,61 @@ def gen(ctx):
         n = rng.choice([1, 2, 3, 4, 5, 6, 8, 10, 12, rng.randint(0, 12), rng.randint(13, 60)])
         common, names, _q = _scenario(rng, n)
         cases.append(('symhist', common + [rng.randrange(3), _history(rng, names)]))
+    # ---- (g) interleaved histories on ONE ELFFile: live generators resumed after other stream activity
+    for _ in range(120 * T):
+        n = rng.choice([2, 3, 4, 5, 6, 8, 10, 12, rng.randint(1, 12), rng.randint(13, 40)])
+        common, names, _q = _scenario(rng, n)
+        gp = _gnu_params(rng, names)
+        gp[5] = 0
+        nb = rng.choice([1, 2, 3, rng.randint(1, 2 * n + 1)])
+        cases.append(('filehist', common + [gp, [nb, rng.randrange(2)], rng.choice([0, 0, 4]), rng.choice([0, 0, 2]),
+                                            rng.getrandbits(32), _file_history(rng, names)]))
     return cases
+
+
+def _file_history(rng, names):
+    """calls on the sections of one open file, interleaved.  Symbol table: ['num'] ['get', i] ['iter', k, how]
+    ['byname', q] ['next', g] (one step of live generator g); syminfo: ['inext', g]; companion index table:
+    ['shndx', i]; hash sections: ['sysv', q] ['gnu', q] ['sysvcount'] ['gnucount']; string table: ['str', i];
+    pure disturbances of the shared stream: ['seek', p] ['secdata', j] ['getsec', j]."""
+    n = len(names)
+    absent = _absent_queries(rng, names, 3) or [b'absent']
+    ops = []
+    def q():
+        return names[rng.randrange(n)] if rng.random() < 0.7 else rng.choice(absent)
+    for _ in range(rng.randint(4, 16)):
+        r = rng.random()
+        if r < 0.34:
+            ops.append(['next', rng.choice([0, 0, 0, 1, 1, 2])])
+        elif r < 0.42:
+            ops.append(['inext', rng.choice([0, 0, 1])])
+        elif r < 0.50:
+            ops.append(['get', rng.randrange(n)])
+        elif r < 0.56:
+            ops.append(['byname', q()])
+        elif r < 0.62:
+            ops.append(['seek', rng.choice([0, 1, rng.randrange(4096), rng.randrange(64), 10 ** 6])])
+        elif r < 0.68:
+            ops.append(['secdata', rng.randint(1, 7)])
+        elif r < 0.72:
+            ops.append(['getsec', rng.randint(1, 7)])
+        elif r < 0.78:
+            ops.append(['sysv', q()])
+        elif r < 0.84:
+            ops.append(['gnu', q()])
+        elif r < 0.87:
+            ops.append([rng.choice(['sysvcount', 'gnucount'])])
+        elif r < 0.91:
+            ops.append(['shndx', rng.randrange(n)])
+        elif r < 0.94:
+            ops.append(['str', rng.randrange(n)])
+        elif r < 0.96:
+            ops.append(['iter', rng.randint(0, n + 1), rng.randrange(3)])
+        else:
+            ops.append(['num'])
+    # make sure some generator is resumed after something else happened
+    ops += [['next', 0], rng.choice([['get', rng.randrange(n)], ['seek', 3], ['sysv', q()], ['next', 1], ['secdata', 2]]), ['next', 0]]
+    return ops
 
 
 def _history(rng, names):
@@ -361,6 +419,12 @@ def corpus(ctx):
         for is64 in (1, 0):
             out.append(('symhist', [le, is64, 62, 0, 0, 11, hs, 0,
                                     [['iter', 1, 0], ['byname', b'dup'], ['byname', b''], ['byname', b'alpha'], ['byname', b'zz']]]))
+    # a walk resumed after the consumer touched the file: get_symbol, a second walk in lock step, a seek
+    for le in (1, 0):
+        for is64 in (1, 0):
+            for mid in (['get', 4], ['next', 1], ['seek', 0], ['sysv', b'dup'], ['secdata', 1]):
+                out.append(('filehist', [le, is64, 62, 0, 0, 13, hs, [1, 1, 1, 5, 0, 0], [2, 0], 0, 0, 17,
+                                         [['next', 0], mid, ['next', 0], ['next', 1], ['next', 0], ['byname', b'dup']]]))
     # real linker output (GNU ld and gold, both classes): see corpus/C03/README
     for f in _corpus_files():
         out.append(('elf-file', [f.encode(), ctx.rng.getrandbits(32)]))
@@ -525,6 +589,9 @@ def evaluate(ctx, cases):
             continue
         if kind == 'symhist':
             _eval_hist(ctx, kind, a, ENUMS)
+            continue
+        if kind == 'filehist':
+            _eval_filehist(ctx, kind, a, ENUMS)
             continue
         _eval_table(ctx, kind, a, ENUMS)
 
@@ -921,3 +988,198 @@ def _eval_hist(ctx, kind, a, ENUMS):
             key = 'symtab-history-' + o[0]
             break
     ctx.record(kind, a, impl=impl, spec=spec, model=list(model), in_domain=in_dom, nontrivial=n >= 2 and len(ops) >= 2, key=key)
+
+
+# ------------------------------------------------------------------ interleaved histories on one open file
+def _eval_filehist(ctx, kind, a, ENUMS):
+    """One ELFFile with .dynstr .dynsym .symtab_shndx .SUNW_syminfo .hash .gnu.hash; the calls of the history are made
+    on ITS section objects in the given order, so live iter_symbols generators are resumed after other sections, other
+    generators and explicit seeks have moved the shared stream.  Symbol-table calls are answered by the Coq state machine
+    (model: sym_run under the cursor schedule stream.tell() actually observed before each call; spec: answers); the other
+    calls by the stateless spec / model functions."""
+    from elftools.elf.elffile import ELFFile
+    from tools.lib import sx
+    drv = ctx.driver
+    le, is64, machine, extra, strmode, fill_seed, syms, gp, (snb, tail_insert), xextra, iextra, tseed, ops = a
+    rng = random.Random(fill_seed)
+    trng = random.Random(tseed)
+    n = len(syms)
+    entsize = (24 if is64 else 16) + extra
+    gnb, so = gp[0], min(gp[1], n)
+    names0 = [s_[0] for s_ in syms]
+    hs0 = drv.one(['hashes', names0])
+    order = list(range(so)) + sorted(range(so, n), key=lambda i: hs0[i][1] % gnb)
+    syms = [syms[i] for i in order]
+    names = [s_[0] for s_ in syms]
+    hs = [hs0[i] for i in order]
+    strtab, offs = _build_strtab(names, strmode, rng)
+    rows = [[[offs[i]] + list(s_[1:]), _garbage(rng, extra)] for i, s_ in enumerate(syms)]
+    xvals = [trng.choice([0, 1, 0xffff, 0x10000, 2 ** 32 - 1, trng.getrandbits(32)]) for _ in range(n)]
+    xrows = [[v, _garbage(rng, xextra)] for v in xvals]
+    irows = [[trng.choice([0xffff, 0xfffe, 0, trng.randrange(65536)]), trng.randrange(65536), _garbage(rng, iextra)] for _ in range(n)]
+    # SysV table (head insertion) and GNU table (standard construction) over the same symbols
+    buckets, chains = [0] * snb, [0] * n
+    for i in (range(1, n) if not tail_insert else range(n - 1, 0, -1)):
+        b = hs[i][0] % snb
+        chains[i] = buckets[b]
+        buckets[b] = i
+    Ts = [buckets, chains]
+    _, _, bloom_size, shift, empty_mode, _ = gp
+    C = 64 if is64 else 32
+    bloom = [0] * bloom_size
+    gb = [0 if (not empty_mode or so == 0) else rng.randrange(so) for _ in range(gnb)]
+    chain = []
+    for i in range(so, n):
+        h = hs[i][1]
+        bloom[(h // C) % bloom_size] |= (1 << (h % C)) | (1 << ((h >> shift) % C))
+        b = h % gnb
+        if i == so or hs[i - 1][1] % gnb != b:
+            gb[b] = i
+        chain.append((h & ~1) | (1 if (i == n - 1 or hs[i + 1][1] % gnb != b) else 0))
+    Tg = [so, shift, bloom, gb, chain]
+    hq = [o[1] for o in ops if o[0] in ('sysv', 'gnu')]
+    calls = [o[:2] if o[0] == 'iter' else o for o in ops if o[0] in ('num', 'get', 'iter', 'byname', 'next')]
+    (symbytes, ok, views, xb, xok, ib, iok, ispec, hb, wfs, gbytes, wfg, ps, pg, (calls_ok, answers)) = drv.batch(
+        [['enc_symtab', le, is64, rows], ['symtab_ok', is64, entsize, rows, strtab], ['spec_views', strtab, rows],
+         ['enc_shndx', le, xrows], ['shndx_ok', 4 + xextra, xrows], ['enc_syminfo', le, irows], ['syminfo_ok', 4 + iextra, irows],
+         ['spec_syminfo', strtab, rows, irows], ['enc_sysv', le, Ts], ['wf_sysv', Ts, strtab, rows],
+         ['enc_gnu', le, is64, Tg], ['wf_gnu', is64, Tg, strtab, rows],
+         ['spec_present', strtab, rows, 1, hq], ['spec_present', strtab, rows, so, hq], ['spec_hist', strtab, rows, calls]])
+    in_dom = all(bool(x) for x in (ok, xok, iok, wfs, wfg, calls_ok)) and all(_is_utf8(x) for x in names) and \
+        all(_is_utf8(o[1]) for o in ops if o[0] in ('byname', 'sysv', 'gnu'))
+    secs = [dict(name='.dynstr', type=SHT['STRTAB'], data=strtab, link=0, entsize=0),
+            dict(name='.dynsym', type=SHT['DYNSYM'], data=symbytes, link=1, entsize=entsize),
+            dict(name='.symtab_shndx', type=SHT['SYMTAB_SHNDX'], data=xb, link=2, entsize=4 + xextra),
+            dict(name='.SUNW_syminfo', type=SHT['SUNW_syminfo'], data=ib, link=2, entsize=4 + iextra),
+            dict(name='.hash', type=SHT['HASH'], data=hb, link=2, entsize=4),
+            dict(name='.gnu.hash', type=SHT['GNU_HASH'], data=gbytes, link=2, entsize=0)]
+    img, so_ = _assemble(le, is64, machine, secs, rng)
+    cfg = [le, is64, [so_[1], len(symbytes), entsize], so_[0]]
+    elf = ELFFile(io.BytesIO(img))
+    symsec, xsec, isec, hsec, gsec = (elf.get_section(i) for i in (2, 3, 4, 5, 6))
+    gens, igens, ipos = {}, {}, {}
+    impl, spec, tags, cursors = [], [], [], []
+    hqi = 0
+    ai = 0
+    def lookup(sec, q, lo):
+        r = _call(lambda: sec.get_symbol(q.decode('utf-8', errors='replace')))
+        return r if (isinstance(r, list) and r and r[0] == 'err') else _ok(_lookup_obs(None if r is None else _view(r, ENUMS), views[lo:]))
+    for o in ops:
+        t = o[0]
+        if t in ('num', 'get', 'iter', 'byname', 'next'):
+            cursors.append(elf.stream.tell())
+            want = answers[ai]
+            ai += 1
+            if t == 'num':
+                got = _call(lambda: _ok(symsec.num_symbols()))
+            elif t == 'get':
+                got = _call(lambda: _ok(_view(symsec.get_symbol(o[1]), ENUMS)))
+            elif t == 'byname':
+                got = _call(lambda: _ok((lambda r: 'none' if r is None else ['some', [_view(s_, ENUMS) for s_ in r]])(
+                    symsec.get_symbol_by_name(o[1].decode('utf-8', errors='replace')))))
+            elif t == 'iter':
+                def run_iter():
+                    g = symsec.iter_symbols()
+                    got_ = []
+                    for _ in range(o[1]):
+                        try:
+                            got_.append(_view(next(g), ENUMS))
+                        except StopIteration:
+                            break
+                    if o[2] == 1:
+                        g.close()
+                    return _ok(got_)
+                got = _call(run_iter)
+            else:
+                if o[1] not in gens:
+                    gens[o[1]] = symsec.iter_symbols()
+                def step():
+                    try:
+                        return _ok(_view(next(gens[o[1]]), ENUMS))
+                    except StopIteration:
+                        return 'stop'
+                got = _call(step)
+            impl.append(got); spec.append(want); tags.append(t)
+        elif t == 'inext':
+            if o[1] not in igens:
+                igens[o[1]] = isec.iter_symbols()
+                ipos[o[1]] = 0
+            def istep():
+                try:
+                    s_ = next(igens[o[1]])
+                    return _ok([s_.name.encode('utf-8'), [_num(s_.entry['si_boundto'], ENUMS['boundto']), s_.entry['si_flags']]])
+                except StopIteration:
+                    return 'stop'
+            impl.append(_call(istep))
+            spec.append(_ok(ispec[ipos[o[1]]]) if ipos[o[1]] < len(ispec) else 'stop')
+            ipos[o[1]] += 1
+            tags.append(t)
+        elif t == 'shndx':
+            impl.append(_call(lambda: _ok(xsec.get_section_index(o[1])))); spec.append(_ok(xvals[o[1]])); tags.append(t)
+        elif t == 'str':
+            impl.append(_call(lambda: _ok(symsec.stringtable.get_string(rows[o[1]][0][0]).encode('utf-8'))))
+            spec.append(_ok(views[o[1]][0])); tags.append(t)
+        elif t in ('sysv', 'gnu'):
+            pres = (ps if t == 'sysv' else pg)[hqi]
+            impl.append(lookup(hsec if t == 'sysv' else gsec, o[1], 1 if t == 'sysv' else so))
+            spec.append(_ok(['some', o[1], 1]) if pres else _ok('none'))
+            hqi += 1
+            tags.append(t)
+        elif t in ('sysvcount', 'gnucount'):
+            sec = hsec if t == 'sysvcount' else gsec
+            impl.append(_call(lambda: _ok(sec.get_number_of_symbols()))); spec.append(_ok(n)); tags.append(t)
+        elif t == 'seek':
+            elf.stream.seek(o[1])
+        elif t == 'secdata':
+            _call(lambda: elf.get_section(o[1]).data())
+        elif t == 'getsec':
+            _call(lambda: elf.get_section(o[1]))
+    model_sym = drv.one(['m_hist', img, cfg, calls, cursors])
+    m_x, m_i, m_s, m_g = drv.batch([['m_shndx', img, le, [so_[2], len(xb), 4 + xextra], list(range(n))],
+                                    ['m_syminfo', img, cfg, [so_[3], len(ib), 4 + iextra]],
+                                    ['m_sysv', img, cfg, so_[4], hq], ['m_gnu', img, cfg, so_[5], hq]])
+    m_views = drv.one(['m_get', img, cfg, list(range(n))])
+    model = []
+    ai = hqi = 0
+    ip = {}
+    for o in ops:
+        t = o[0]
+        if t in ('num', 'get', 'iter', 'byname', 'next'):
+            model.append(model_sym[ai]); ai += 1
+        elif t == 'inext':
+            j = ip.get(o[1], 0)
+            ip[o[1]] = j + 1
+            lst = m_i[1][1] if (isinstance(m_i[1], list) and m_i[1] and m_i[1][0] == 'ok') else None
+            model.append(m_i[1] if lst is None else (_ok(lst[j]) if j < len(lst) else 'stop'))
+        elif t == 'shndx':
+            model.append(m_x[o[1]])
+        elif t == 'str':
+            r = m_views[o[1]]
+            model.append(_ok(r[1][0]) if (isinstance(r, list) and r and r[0] == 'ok') else r)
+        elif t in ('sysv', 'gnu'):
+            r = (m_s if t == 'sysv' else m_g)[1][hqi]
+            hqi += 1
+            lo = 1 if t == 'sysv' else so
+            model.append(_ok(_lookup_obs(r[1] if r[1] == 'none' else r[1][1], views[lo:]))
+                         if (isinstance(r, list) and r and r[0] == 'ok') else r)
+        elif t == 'sysvcount':
+            model.append(m_s[0])
+        elif t == 'gnucount':
+            model.append(m_g[0])
+    ctx.bump('kind', kind)
+    ctx.bump('filehist_len', len(ops) if len(ops) < 10 else ('10-14' if len(ops) < 15 else '15+'))
+    # what separated two consecutive steps of the same live symbol-table generator
+    last = {}
+    for i, o in enumerate(ops):
+        if o[0] == 'next':
+            if o[1] in last:
+                between = sorted(set(x[0] for x in ops[last[o[1]] + 1:i]))
+                for b in (between or ['nothing']):
+                    ctx.bump('filehist_between_steps', b)
+            last[o[1]] = i
+    key = None
+    for tg, i_, s_ in zip(tags, impl, spec):
+        if sx.canon(i_) != sx.canon(s_):
+            key = 'interleaved-' + tg
+            break
+    ctx.record(kind, a, impl=impl, spec=spec, model=model, in_domain=in_dom, nontrivial=n >= 2, key=key)
